@@ -7,6 +7,16 @@ statement.  A *structure* for a signature is a finite standard model `M` togethe
 `ρ 2 n S` of the constants; free and schematic variables (kinds 1 and 0 of the valuation) are
 implicitly universally quantified in a theorem of the theory, so a sequent is *satisfied* by a
 structure when it holds for every admissible valuation with these constants (`Sat`).
+
+SCOPE.  Everything in this file is about ONE kind of item: `def` (class `Definition`), i.e. an
+equation `c x1 … xn = rhs` (n ≥ 0; n = 0 is the constant definition `c = t`).  The other kinds that
+are definitions by name — `def.ind` (recursive functions), `def.pred` (inductive predicates),
+`type.ind` (datatypes) — have NO conservativity theorem here and no check in the code (no
+termination, overlap or positivity test exists to model); for them, and for the explicitly
+axiomatic kinds (`def.ax`, `thm.ax`, `type.ax`) and `thm`, the check only compares operationally
+(extensions well-typed over the extended theory, round trips) and reports the syntactic hazards it
+can recognise (overlapping equations, a recursive call on the same arguments, negative occurrences,
+a type declared twice) as known findings.
 -/
 namespace Holpy.C11
 open Holpy
@@ -32,9 +42,12 @@ example : defOK "K" (Ty.fn (.tvar "a") (Ty.fn (.tvar "b") (.tvar "a")))
       (.comb (.comb (.const "K" (Ty.fn (.tvar "a") (Ty.fn (.tvar "b") (.tvar "a")))) (.var "x" (.tvar "a")))
         (.var "y" (.tvar "b")))) (.var "x" (.tvar "a"))) = true := by decide
 
-/-- Adding an accepted definition keeps a satisfiable theory satisfiable: if the sequents `Γ` (which
-do not mention the new constant) are all satisfied by a structure, the same structure with the new
-constant interpreted suitably satisfies `Γ` and the defining equation. -/
+/-- For a `def` item at its declared type: let `Γ` be sequents none of which mentions the constant
+`name :: T` (at exactly this type), all satisfied by the structure (`M`, constants of `ρ`).  Then
+the new constant has a value `c` such that the structure with `name :: T ↦ c` satisfies every
+sequent of `Γ` AND the defining equation (for all values of all variables).  Nothing is said here
+about other type instances of the equation (see `def_keeps_consistency_poly`), about infinite
+models, or about items of another kind. -/
 theorem def_keeps_consistency (name : String) (T : Ty) (prop : Term) (h : defOK name T prop = true)
     (hfresh : freshName name T = true) (Γ : List Thm)
     (hnew : ∀ th ∈ Γ, ∀ t ∈ th.hyps ++ [th.prop], (2, name, T) ∉ atoms t)
@@ -152,32 +165,97 @@ theorem def_conservative_poly (name : String) (T : Ty) (prop : Term) (h : defOK 
     rw [instTerm_mkProp]
     exact h3 σ
 
+/-- The same for ALL type instances at once: if no sequent of `Γ` mentions `name` at any instance
+`T[σ]` of its type and the structure (`M`, constants of `ρ`) satisfies `Γ`, then there is a
+valuation `ρ'` that differs from `ρ` only at the constants `name :: T[σ]`, still satisfies `Γ`, and
+satisfies every type instance of the defining equation of the `def` item. -/
+theorem def_keeps_consistency_poly (name : String) (T : Ty) (prop : Term)
+    (h : defOK name T prop = true) (hname : nonLogicalName name = true) (Γ : List Thm)
+    (hnew : ∀ th ∈ Γ, ∀ t ∈ th.hyps ++ [th.prop], ∀ σ, (2, name, instTy σ T) ∉ atoms t)
+    (M : Model) (ρ : Valuation) (hρ : Admissible M ρ) (hsat : ∀ th ∈ Γ, Sat M ρ th) :
+    ∃ ρ', Admissible M ρ' ∧
+      (∀ k n S, ¬ (k = 2 ∧ n = name ∧ ∃ σ, S = instTy σ T) → ρ' k n S = ρ k n S) ∧
+      (∀ th ∈ Γ, Sat M ρ' th) ∧ ∀ σ, Sat M ρ' ⟨[], instTerm σ prop⟩ := by
+  obtain ⟨ρ', h1, h2, h3⟩ := def_conservative_poly name T prop h hname M ρ hρ
+  refine ⟨ρ', h1, h2, fun th hth => ?_, h3⟩
+  apply Sat_congr M ρ ρ' hρ th _ (hsat th hth)
+  intro t ht a ha hk
+  obtain ⟨k, n, S⟩ := a
+  cases hk
+  apply h2
+  rintro ⟨_, rfl, σ, rfl⟩
+  exact hnew th hth t ht σ ha
+
+/-- CONSTANT DEFINITIONS, with the kernel's notion `Valid` (true under every admissible valuation
+of a model, constants included): an accepted `def c :: T, c = t` (no arguments; then `t` is closed
+and its type variables occur in `T`) can be eliminated — a sequent that does not mention `c :: T`
+and is valid in a finite standard model when the defining equation is added to its hypotheses is
+valid in that model without it.  So the definitional axiom proves nothing new about the old
+signature. -/
+theorem const_def_eliminable (name : String) (T : Ty) (rhs : Term)
+    (h : defOK name T (constDef name T rhs) = true) (hfresh : freshName name T = true) (th : Thm)
+    (hno : ∀ t ∈ th.hyps ++ [th.prop], (2, name, T) ∉ atoms t) (M : Model)
+    (hv : Valid M ⟨constDef name T rhs :: th.hyps, th.prop⟩) : Valid M th := by
+  unfold defOK at h
+  rw [view?_constDef] at h
+  simp only at h
+  intro ρ hρ hhyps
+  obtain ⟨hc, hsat⟩ := defValue_sat name T ⟨[], T, rhs⟩ (coreOK_of_viewOK h) hfresh M ρ hρ
+  have hρ' := hρ.update 2 name T _ hc
+  have hdef : holds M (ρ.update 2 name T (defValue M ρ ⟨[], T, rhs⟩)) (constDef name T rhs) :=
+    (sat_nil_iff _ _ _).1 hsat _ hρ' (fun _ _ => rfl)
+  have hsame : ∀ t ∈ th.hyps ++ [th.prop],
+      sem M (ρ.update 2 name T (defValue M ρ ⟨[], T, rhs⟩)) [] [] t = sem M ρ [] [] t := by
+    intro t ht
+    apply sem_congr
+    intro a ha
+    obtain ⟨k, n, S⟩ := a
+    apply update_const_other
+    rintro ⟨rfl, rfl, rfl⟩
+    exact hno t ht ha
+  have := hv _ hρ' (by
+    intro g hg
+    rcases List.mem_cons.1 hg with rfl | hg
+    · exact hdef
+    · show sem M _ [] [] g = 1
+      rw [hsame g (by simp [hg])]
+      exact hhyps g hg)
+  show sem M ρ [] [] th.prop = 1
+  rw [← hsame th.prop (by simp)]
+  exact this
+
 /-! ### the equation of an accepted definition is well-typed -/
 
-/-- The theorem extension `Definition.get_extension` generates passes `check_thm_type`; its head
-is the declared constant at its declared type and `equals` is used at an instance of its type. -/
+/-- For a `def` item: `Definition.get_extension` generates the constant at its declared type and a
+theorem (no hypotheses, the defining equation) that passes `check_thm_type`; if the parser's output
+uses `equals` / `implies` / `all` at instances of their declared types only (`sigOK`), it also passes
+the signature-aware `check_thm_type` of the checker (`Thm.checkThmTypeSig`).  `Theory.check_term`
+against the declared types of the OTHER constants is not modelled (the harness runs the real one). -/
 theorem def_ext_welltyped (name cname : String) (T : Ty) (prop : Term) (attrs : List String)
     (h : defOK name T prop = true) :
     ∃ th, Ext.theorem (cname ++ "_def") th ∈ getExtension name cname T prop attrs ∧
-      Thm.checkThmType th = true ∧ Ext.constant name T cname ∈ getExtension name cname T prop attrs := by
+      Thm.checkThmType th = true ∧ (Holpy.sigOK prop = true → Thm.checkThmTypeSig th = true) ∧
+      Ext.constant name T cname ∈ getExtension name cname T prop attrs := by
   unfold defOK at h
   cases hv : view? name T prop with
   | none => rw [hv] at h; cases h
   | some v =>
     rw [hv] at h
     obtain ⟨hT, _, _, _, htyped⟩ := viewOK_parts h
-    refine ⟨⟨[], prop⟩, by simp [getExtension], ?_, by simp [getExtension]⟩
-    rw [view?_spec name T prop v hv]
-    have hl := lhs_typed name T v hT
-    simp [Thm.checkThmType, mkProp, Term.checkedGetType, hl, htyped, bind, Except.bind,
-      Ty.isFun_fn, Ty.domain?_fn, Ty.range?_fn]
+    have hct : Thm.checkThmType ⟨[], prop⟩ = true := by
+      rw [view?_spec name T prop v hv]
+      have hl := lhs_typed name T v hT
+      simp [Thm.checkThmType, mkProp, Term.checkedGetType, hl, htyped, bind, Except.bind,
+        Ty.isFun_fn, Ty.domain?_fn, Ty.range?_fn]
+    refine ⟨⟨[], prop⟩, by simp [getExtension], hct, ?_, by simp [getExtension]⟩
+    intro hs
+    simp [Thm.checkThmTypeSig, hct, Thm.sigOK, hs]
 
 /-! ### non-vacuity: library-style definitions are accepted -/
 
 def tA : Ty := .tvar "a"
 def tB : Ty := .tvar "b"
 def tC : Ty := .tvar "c"
-def eqAt (T : Ty) (a b : Term) : Term := .comb (.comb (.const "equals" (Ty.fn T (Ty.fn T Ty.bool))) a) b
 
 /-- `K x y = x` -/
 def kProp : Term :=
@@ -196,11 +274,13 @@ def zeroIntProp : Term :=
 
 example : defOK "K" (Ty.fn tA (Ty.fn tB tA)) kProp = true := by decide
 example : defOK "comp" compT compProp = true := by decide
+example : Holpy.sigOK compProp = true := by decide
 example : defOK "zero" (.con "int" []) zeroIntProp = true := by decide
 example : Conservative "comp" compT compProp := def_conservative _ _ _ (by decide) (by decide)
 example : Conservative "zero" (.con "int" []) zeroIntProp := def_conservative _ _ _ (by decide) (by decide)
 example : ∃ th, Ext.theorem "comp_def" th ∈ getExtension "comp" "comp" compT compProp ["hint_rewrite"] ∧
-    Thm.checkThmType th = true ∧ Ext.constant "comp" compT "comp" ∈ getExtension "comp" "comp" compT compProp ["hint_rewrite"] :=
+    Thm.checkThmType th = true ∧ (Holpy.sigOK compProp = true → Thm.checkThmTypeSig th = true) ∧
+    Ext.constant "comp" compT "comp" ∈ getExtension "comp" "comp" compT compProp ["hint_rewrite"] :=
   def_ext_welltyped "comp" "comp" compT compProp ["hint_rewrite"] (by decide)
 
 /-- `comp` at all its type instances at once -/
@@ -214,6 +294,22 @@ example (M : Model) (ρ : Valuation) (hρ : Admissible M ρ) : ∃ ρ', Admissib
     (∀ k n S, ¬ (k = 2 ∧ n = "zero" ∧ ∃ σ, S = instTy σ (.con "int" [])) → ρ' k n S = ρ k n S) ∧
     ∀ σ, Sat M ρ' ⟨[], instTerm σ zeroIntProp⟩ :=
   def_conservative_poly "zero" (.con "int" []) zeroIntProp (by decide) (by decide) M ρ hρ
+
+/-- `one = Suc zero` (library: `def one :: nat`) -/
+def oneRhs : Term := .comb (.const "Suc" (Ty.fn (.con "nat" []) (.con "nat" []))) (.const "zero" (.con "nat" []))
+example : defOK "one" (.con "nat" []) (constDef "one" (.con "nat" []) oneRhs) = true := by decide
+
+/-- whatever is valid about `zero` and `Suc` with `one = Suc zero` as a hypothesis is valid without it -/
+example (M : Model) (th : Thm) (hno : ∀ t ∈ th.hyps ++ [th.prop], (2, "one", Ty.con "nat" []) ∉ atoms t)
+    (hv : Valid M ⟨constDef "one" (.con "nat" []) oneRhs :: th.hyps, th.prop⟩) : Valid M th :=
+  const_def_eliminable "one" (.con "nat" []) oneRhs (by decide) (by decide) th hno M hv
+
+example (Γ : List Thm) (hnew : ∀ th ∈ Γ, ∀ t ∈ th.hyps ++ [th.prop], ∀ σ, (2, "comp", instTy σ compT) ∉ atoms t)
+    (M : Model) (ρ : Valuation) (hρ : Admissible M ρ) (hsat : ∀ th ∈ Γ, Sat M ρ th) :
+    ∃ ρ', Admissible M ρ' ∧
+      (∀ k n S, ¬ (k = 2 ∧ n = "comp" ∧ ∃ σ, S = instTy σ compT) → ρ' k n S = ρ k n S) ∧
+      (∀ th ∈ Γ, Sat M ρ' th) ∧ ∀ σ, Sat M ρ' ⟨[], instTerm σ compProp⟩ :=
+  def_keeps_consistency_poly "comp" compT compProp (by decide) (by decide) Γ hnew M ρ hρ hsat
 
 /-! ### each side condition is needed -/
 
